@@ -57,12 +57,30 @@ def family(pid, tier, seed):
                 if len(g["inputs"]) - start > 1:
                     g["groups"].append(list(range(start, len(g["inputs"]))))
             gs.append(g)
+        # grammars that NAME an elided type ("the first such token lying before the next ordinary token is matched"): no
+        # re-spacing relation, the outcome is compared with the meaning; inputs put other elided tokens around the named one
+        for i in range(n // 2):
+            g = GG.make_grammar(rng, "x%d" % i, extra_kinds=["token", "tokens"] if i % 2 else [], name_elided=True, ks=(0, 1, -1))
+            g["explicit"] = True
+            seen = set()
+            terms = GG.grammar_terms(g)
+            pmap = {p["name"]: p["body"] for p in g["prods"][1:]}
+            for b in range(bases):
+                ts = GG.sample(pmap["P0"], pmap, g["unions"], rng, 3)[:8] if rng.random() < 0.6 else [rng.choice(terms) for _ in range(rng.randrange(0, 5))]
+                GG.add_input(g, " ".join(ts), seen)
+                GG.respacings(g, rng, ts, seen, resp)
+            gs.append(g)
         for g in curated_core(rng, with_tokens=True):
+            if g["id"] == "b0":
+                continue   # (loops that spin to the iteration limit: exercised by C01 with its own inputs)
             g["inputs"], g["groups"] = [], []
             seen = set()
             terms = GG.grammar_terms(g) + [";", "y", "9"]
+            pmap = {p["name"]: p["body"] for p in g["prods"][1:]}
             for b in range(bases):
                 ts = [rng.choice(terms) for _ in range(rng.randrange(0, 4))]
+                if b % 2:
+                    ts = GG.sample(pmap["P0"], pmap, g["unions"], rng, 3)[:9]
                 start = len(g["inputs"])
                 GG.add_input(g, " ".join(ts), seen)
                 GG.respacings(g, rng, ts, seen, resp)
@@ -160,6 +178,11 @@ def curated_core(rng, with_tokens=True):
         # one []lexer.Token / lexer.Token field written by several separate captures (the last capture wins)
         gs.append(mk_grammar("t3", [("P0", seq(cap("R", "tokens", ref("Ident")), grp("star", seq(lit("("), cap("R", "tokens", grp("once", seq(ref("Ident"), grp("opt", ref("Int"))))))), grp("opt", cap("K", "token", ref("Int"))), grp("opt", cap("K", "token", lit(")")))),
                                      [F("R", "tokens"), F("K", "token")])], with_pos=True))
+    if with_tokens:
+        # lexer.Token / []lexer.Token fields whose first matched token comes from a negation
+        gs.append(mk_grammar("t4", [("P0", seq(cap("K", "string", ref("Ident")), lit("("), cap("V", "token", {"op": "neg", "kid": lit(";")}),
+                                               cap("R", "tokens", grp("once", grp("star", {"op": "neg", "kid": lit(";")}))), lit(";")),
+                                     [F("K", "string"), F("V", "token"), F("R", "tokens")])], with_pos=True))
     # a union in an optional / repeated position whose earlier member fails beyond the lookahead
     gs.append(mk_grammar("u0", [("P0", seq(grp("opt", cap("H", "union", {"op": "union", "u": "U0"})), grp("star", cap("R", "strings", grp("once", alt(ref("Ident"), lit("("), lit(")")))))), [F("H", "union", "U0"), F("R", "strings")]),
                                  ("P1", seq(lit("a"), lit("b"), cap("X", "string", lit("("))), [F("X", "string")]),
@@ -218,6 +241,10 @@ def leak_family(rng, quick):
     combos += [("zw_prod", "none", k) for k in ("string", "token")] + [("zw_cap", "none", k) for k in ("tokens", "string", "bool")]
     combos += [(c, n, k) for c in ("lookcap", "nlookcap") for n in ("none", "complete", "partial") for k in ("string", "strings", "bool")]
     combos += [("caploop", "none", k) for k in ("string", "strings", "tokens")] + [("capplus", "none", k) for k in ("string", "strings")]
+    # the SAME field captured on the accepted path and again, first thing, inside the abandoned attempt
+    combos += [("samefield_" + m, "none", k) for m in ("star", "opt", "alt") for k in ("string", "strings")]
+    # a modifier applied directly to a multi-token capture: @( A B )*  @( A B )?  @( A B )+
+    combos += [("modcap_" + m, "none", k) for m in ("star", "opt", "plus") for k in ("string", "strings", "tokens")]
     for idx, (cp, nested, kind) in enumerate(combos):
         fields0 = [{"name": "A", "kind": kind, "arg": ""}, {"name": "B", "kind": "strings", "arg": ""}, {"name": "C", "kind": "string", "arg": ""}]
         capA = cap("A", kind, ref("Int") if kind == "int8" else ref("Ident"))
@@ -260,6 +287,19 @@ def leak_family(rng, quick):
             fields0 = [{"name": "A", "kind": kind, "arg": ""}, {"name": "C", "kind": "string", "arg": ""}]
             body = seq(cap("A", kind, grp("once", inner_)), cont)
             prods_extra = []
+        elif cp.startswith("samefield_"):
+            fields0 = [{"name": "A", "kind": kind, "arg": ""}, {"name": "C", "kind": "string", "arg": ""}]
+            again = seq(cap("A", kind, ref("Ident")), lit("!"))
+            m = cp.split("_")[1]
+            tail_ = grp(m, again) if m != "alt" else grp("once", {"op": "alt", "kids": [again, lit(";")]})
+            body = seq(cap("A", kind, ref("Ident")), grp("opt", tail_) if m == "alt" else tail_, grp("opt", cont))
+            prods_extra = []
+        elif cp.startswith("modcap_"):
+            fields0 = [{"name": "A", "kind": kind, "arg": ""}, {"name": "C", "kind": "string", "arg": ""}]
+            m = cp.split("_")[1]
+            rep_ = grp(m, cap("A", kind, grp("once", seq(ref("Ident"), lit("!")))))
+            body = seq(rep_, cont) if m != "plus" else {"op": "alt", "kids": [seq(rep_, lit(";")), cont]}
+            prods_extra = []
         elif cp == "alt":
             body = {"op": "alt", "kids": [attempt, cont]}
         elif cp == "altalt":
@@ -299,7 +339,8 @@ def leak_family(rng, quick):
                     GG.add_input(g, " ".join(["z"] + ts), seen)
         for ts in (["x", "(", "y", "(", "7"], ["x", "(", "y", "(", "(", "z"], ["(", "y", "(", "7"], ["x", "(", "7"], ["x", "(", "y", "("], ["(", "y", "(", "z", "(", ")"]):
             GG.add_input(g, " ".join(ts), seen)
-        for ts in (["x", "w"], ["7"], ["x", "?"], ["-", "7", "!"], ["-", "!"], ["!"], ["-", "x"], ["-", "7", "?"]):
+        for ts in (["x", "w"], ["7"], ["x", "?"], ["-", "7", "!"], ["-", "!"], ["!"], ["-", "x"], ["-", "7", "?"],
+                   ["x", "w", "!", "u"], ["x", "!", "w"], ["x", "!", "w", "!", "u"], ["x", "!", "w", "?"], ["x", "w", "!", "u", "v"], ["x", "!", "w", "!", ";"]):
             GG.add_input(g, " ".join(ts), seen)
         GG.random_inputs(g, rng, 20 if quick else 80, 7, seen, seps=(" ", " ", "  "))
         gs.append(g)
@@ -392,6 +433,10 @@ def run(pid, tier, args):
                 if not same:
                     v.violation("grammar %s lookahead %d input %r: real %s, meaning %s" % (key[0], key[1], g["inputs"][key[2]]["s"], r[:300], e[:300]),
                                 {"property": pid, "kind": "parse", "case": single_case(g, key), "readable": describe(g, key), "real": r, "spec": e})
+            elif pid == "C10" and g.get("explicit"):
+                if not same:
+                    v.violation("grammar %s (names an elided token type) lookahead %d input %r: real %s, meaning %s" % (key[0], key[1], g["inputs"][key[2]]["s"], r[:300], e[:300]),
+                                {"property": pid, "kind": "parse", "case": single_case(g, key), "readable": describe(g, key), "real": r, "spec": e})
             elif pid in ("C02", "C11"):
                 if not same and r.startswith("ok") and e.startswith("ok"):
                     v.violation("grammar %s lookahead %d input %r: AST %s, meaning %s" % (key[0], key[1], g["inputs"][key[2]]["s"], r[:300], e[:300]),
@@ -419,6 +464,21 @@ def run(pid, tier, args):
                             if rb != ra:
                                 v.violation("grammar %s input %r: lookahead %d gives %s but lookahead %d gives %s" % (g["id"], g["inputs"][i]["s"], a, ra[:200], b, (rb or "")[:200]),
                                             {"property": pid, "kind": "parse", "case": dict(single_case(g, (g["id"], a, i)), ks=[a, b]), "readable": describe(g, (g["id"], a, i)), "real": ra, "real_stronger": rb})
+            if not args.replay:
+                # lookaheads around and beyond MaxLookahead: a failing alternative that consumes 100001 tokens
+                big = {}
+                for line in vlib.vh(vhbin, ["lookahead-big", "100001"], timeout=900).splitlines():
+                    kk, oc = line.split("\t", 1)
+                    big[int(kk)] = oc
+                for a, ra in big.items():
+                    for b, rb in big.items():
+                        if ra.startswith("ok") and a != b and (b < 0 or (a >= 0 and a < b)):
+                            nrel += 1
+                            if rb != ra:
+                                v.violation("grammar `( @\"x\"+ \"!\" | @\"x\"+ \"?\" )` on 100001 x then ?: lookahead %d gives %s but lookahead %d gives %s" % (a, ra, b, rb),
+                                            {"property": pid, "kind": "lookahead-big", "outcomes": {str(k_): o_ for k_, o_ in big.items()}})
+                if not any(o.startswith("ok") for o in big.values()):
+                    raise Infra("vacuity: the long-input lookahead case never succeeds: %s" % big)
             v.notes["successful_pairs_checked"] = nrel
             if nrel < 100 and not args.replay:
                 raise Infra("vacuity: only %d (success, stronger lookahead) pairs" % nrel)
@@ -429,7 +489,7 @@ def run(pid, tier, args):
                     for k in g["ks"]:
                         outs = {}
                         for i in grp:
-                            if exp.get((g["id"], k, i)) in ("bug", "skip"):
+                            if exp.get((g["id"], k, i)) in ("bug", "skip") or (g["id"], k, i) not in real:
                                 outs = {}
                                 break
                             # lexer.Token fields are compared by the token's type and text, not by its raw index
